@@ -175,6 +175,8 @@ static const char* const prefixes[] = {
     "4k3/8/8/3pP3/8/8/8/4K3 ",          // 1: white to move may capture e5xd6 e.p.
     "r3k2r/8/8/8/3Pp3/8/8/R3K2R ",      // 2: all castling rights possible; black to move may capture e4xd3 e.p.
     "4k3/8/8/8/8/8/8/4K3",              // 3: tail starts right after the placement field (blank runs, missing fields)
+    "4k3/8/3N4/3pP3/8/8/8/4K3 ",        // 4: white to move, the square above the black pawn d5 is occupied (d6) while d7 is empty: "d6" must be refused
+    "4k3/8/8/8/3Pp3/3n4/8/4K3 ",        // 5: black to move, the square below the white pawn d4 is occupied (d3) while d2 is empty: "d3" must be refused
 };
 
 extern "C" {
@@ -188,7 +190,7 @@ void h_fen_any(void) {
 
 // ---- O2b: fixed placement field (verif_param selects it) followed by an arbitrary tail of 0..FEN_TAIL_MAX bytes
 void h_fen_tail(void) {
-    unsigned k = verif_param(); ASSUME(k >= 1 && k <= 3);
+    unsigned k = verif_param(); ASSUME(k >= 1 && k <= 5);
     const char* pre = prefixes[k];
     size_t pl = 0; while (pre[pl]) pl++;
     SymStr ss; std::string& fen = ss.makePrefixed(pre, pl, 0, FEN_TAIL_MAX);
